@@ -7,10 +7,14 @@
    ("stage0.A"), relative identifier ("A"), file part as written (None if absent), method; whether
    the producer is a node of the graph (else: a direct reference to a path under the instance) and
    the location resolve starts from (rootStorage.workingDirectoryForComponent / resolvePath).
-   The file system is a finite map from normalised absolute paths to nodes.  Not modelled: loopref /
-   loopoutput (placeholders of DoWhile loops), repeating producers (their stdout is a stream file),
-   glob patterns in the file part, "..", symbolic links, non-ASCII contents. *)
-From Coq Require Import String Ascii List Bool Arith.
+   The file system is a finite map from normalised absolute paths to nodes.  A producer is repeating
+   (workflowAttributes.isRepeat) or not: the stdout of a repeating producer is the archived stream file
+   streams/<n>.stdout with the greatest INTEGER n (ComponentSpecification.path_to_stdout; RepeatingEngine
+   archives the stdout of every execution there, experiment.runtime.engine.archive_stream, keeping the 5
+   newest).  Not modelled: loopref / loopoutput (placeholders of DoWhile loops), glob patterns in the
+   file part, "..", symbolic links, non-ASCII contents, files in a streams directory whose name before
+   ".stdout" is not a string of decimal digits (int() of the code raises ValueError on them). *)
+From Coq Require Import String Ascii List Bool Arith NArith.
 Import ListNotations.
 Require Import V.Lib.PyStr V.Args.Model.
 Open Scope string_scope.
@@ -21,7 +25,8 @@ Record sref := mk_sref {
   s_file : option string;     (* fileRef, as written in the declaration *)
   s_method : string;
   s_direct : bool;            (* no node of that name in the graph: direct reference *)
-  s_loc : string              (* working directory of the producer / resolved path of the direct producer *)
+  s_loc : string;             (* working directory of the producer / resolved path of the direct producer *)
+  s_repeat : bool             (* the producer is a repeating component (workflowAttributes['isRepeat']) *)
 }.
 
 (* ---- posixpath.join(a, b) *)
@@ -89,6 +94,49 @@ Definition is_some {A} (o : option A) : bool := match o with Some _ => true | No
 Definition reference_path (r : sref) : string :=
   match s_file r with None => s_loc r | Some f => path_join (s_loc r) f end.
 
+(* ---- ComponentSpecification.path_to_stdout: out.stdout in the working directory; for a repeating
+   producer the archived stream with the greatest index:
+     existing = glob.glob(<location>/streams/*.stdout)      (names starting with "." do not match "*")
+     existing = [stream_path_to_index(p) ...]               (int() of the name before ".stdout")
+     none -> DataReferenceFilesDoNotExistError; else <location>/streams/<"%d" % max(existing)>.stdout
+   The indices are compared as INTEGERS (9 < 10) and the path is rebuilt from the index. *)
+Fixpoint suffixb (suf s : string) : bool :=
+  String.eqb suf s || match s with EmptyString => false | String _ s' => suffixb suf s' end.
+(* the name of [key] inside the directory [dir] (None: not a direct child of it) *)
+Definition child_name (dir key : string) : option string :=
+  let d := norm_path dir ++ "/" in
+  if prefixb d key then
+    let n := drop (String.length d) key in
+    if occurs "/" n || negb (nonempty n) then None else Some n
+  else None.
+(* glob "*.<type>" + os.path.splitext: the part of the file name before ".<type>" *)
+Definition stream_name (ext fn : string) : option string :=
+  if suffixb ext fn && negb (prefixb "." fn) then Some (take (String.length fn - String.length ext) fn) else None.
+(* int(name): strings of decimal digits (leading zeros allowed); anything else is outside the model *)
+Definition stream_index (nm : string) : option N :=
+  if nonempty nm && all_chars is_digit nm then undec nm else None.
+Definition entry_index (dir : string) (kn : string * node) : list N :=
+  match child_name dir (fst kn) with
+  | Some fn => match stream_name ".stdout" fn with
+               | Some nm => match stream_index nm with Some i => [i] | None => [] end
+               | None => []
+               end
+  | None => []
+  end.
+Definition stream_indices (fs : fsys) (dir : string) : list N := flat_map (entry_index dir) fs.
+(* max(existing) over integers; None for the empty list *)
+Definition max_index (l : list N) : option N :=
+  match l with [] => None | i :: rest => Some (fold_left N.max rest i) end.
+Definition streams_dir (r : sref) : string := path_join (s_loc r) "streams".
+Definition stream_path (r : sref) (i : N) : string := path_join (streams_dir r) (dec i ++ ".stdout").
+Definition path_to_stdout (fs : fsys) (r : sref) : option string :=
+  if s_repeat r then
+    match max_index (stream_indices fs (streams_dir r)) with
+    | Some i => Some (stream_path r i)
+    | None => None                                   (* DataReferenceFilesDoNotExistError *)
+    end
+  else Some (path_join (s_loc r) "out.stdout").
+
 Definition resolve (fs : fsys) (r : sref) : rres :=
   if is_loop (s_method r) then Unmodelled
   else if is_output (s_method r) then
@@ -96,7 +144,7 @@ Definition resolve (fs : fsys) (r : sref) : rres :=
       if s_direct r || is_some (s_file r) then
         (* matched = glob.glob(reference): the path as written if it exists *)
         match lookup fs (reference_path r) with Some _ => Some (reference_path r) | None => None end
-      else Some (path_join (s_loc r) "out.stdout")      (* producer_spec.path_to_stdout() *)
+      else path_to_stdout fs r                          (* producer_spec.path_to_stdout() *)
     in
     match input with
     | None => Missing
